@@ -58,7 +58,7 @@ theorem exec_loadActuals (K : PCtx) (wf : K.WF) : ∀ (es : List X.Expr) (fuel :
       ∃ a' b' mem', Steps K.env (cfg i a b mem) io (cfg (i + (K.low code).length) a' b' mem') io ∧ Rep K st mem' ∧
         (∀ k (hk : k < ws.length), mem'.read (K.sp + p + k) = ws[k]) ∧
         (∀ q, q < p → mem'.read (K.sp + q) = mem.read (K.sp + q)) ∧
-        Frm K gs.offset K.S mem mem' := by
+        FrmC K gs.offset K.S mem mem' := by
   intro es
   induction es with
   | nil =>
@@ -72,7 +72,7 @@ theorem exec_loadActuals (K : PCtx) (wf : K.WF) : ∀ (es : List X.Expr) (fuel :
       | zero => rw [evalArgs_zero] at hev; simp at hev
       | succ f => rw [evalArgs_nil] at hev; simp only [Res.ok.injEq] at hev; simpa using hev.1.symm
     subst hws
-    exact ⟨a, b, mem, Steps.refl _ _, hr, fun k hk => by simp at hk, fun _ _ => rfl, Frm.refl _ _ _ _⟩
+    exact ⟨a, b, mem, Steps.refl _ _, hr, fun k hk => by simp at hk, fun _ _ => rfl, FrmC.refl _ _ _ _⟩
   | cons e rest ih =>
     intro fuel st s ws hp hev p saved gs code gs' i a b mem io hg hat hr hb hnl hos hci
     cases fuel with
@@ -147,18 +147,18 @@ theorem exec_loadActuals (K : PCtx) (wf : K.WF) : ∀ (es : List X.Expr) (fuel :
               congr 1; omega
           · intro q hq
             rw [hkeep q (by omega), Mem.read_write_other _ _ _ _ (by omega)]
-            apply frm1
+            apply frm1 _ (by omega)
             intro k h1' h2' e
             have hq' : q < K.S := by omega
             rw [← slot_of_out K q hq'] at e
             have := slot_inj K (K.S - 1 - q) k (by omega) (by have := e2.2.1; omega) e
             have := e2.2.1
             omega
-          · intro ad had
-            rw [frm3 ad (fun k h1' h2' => had k (by have := e1.1; omega) h2')]
+          · intro ad hsp had
+            rw [frm3 ad hsp (fun k h1' h2' => had k (by have := e1.1; omega) h2')]
             rw [Mem.read_write_other _ _ _ _ (fun e => had (K.S - 1 - p)
               (by have := e1.2.1; have := e2.2.1; omega) (by omega) (by rw [slot_of_out K p hpS]; exact e.symm))]
-            exact frm1 ad (fun k h1' h2' => had k h1' (by have := e2.2.1; omega))
+            exact frm1 ad hsp (fun k h1' h2' => had k h1' (by have := e2.2.1; omega))
 
 /-! ### System-call statements -/
 
@@ -235,7 +235,7 @@ theorem exec_syscall (K : PCtx) (wf : K.WF) (id : Nat) (hid : id < 3) (es : List
     | .exit cd _ => ∃ c, Steps K.env (cfg i a b mem) io c io ∧ Exit K.env c io cd
     | .ok r s' =>
       ∃ a' b' mem', Steps K.env (cfg i a b mem) io (cfg (i + (K.low code).length) a' b' mem') s'.io ∧ Rep K st mem' ∧
-        (∀ v, r = some v → a' = v) ∧ Frm K gs.offset K.S mem mem'
+        (∀ v, r = some v → a' = v) ∧ FrmC K gs.offset K.S mem mem'
     | .undef _ => True := by
   obtain ⟨c1, gs1, c2, gs2, h1, h2, hcode, hgs'⟩ := callSeq_inv _ _ _ _ _ _ _ _ hg
   obtain ⟨hnc, hcnt⟩ := genCallActuals_noCall K.ctx (optArgsOf K.ρ es) { gs with size := gs.offset } (optArgsOf_noCall K.ρ es hp)
@@ -392,6 +392,6 @@ theorem exec_syscall (K : PCtx) (wf : K.WF) (id : Nat) (hid : id < 3) (es : List
         · intro v hv
           simp only [Option.some.injEq] at hv
           rw [← hv, hio]
-        · exact frm1.trans (frm2.mono (by omega) (by omega))
+        · exact frm1.trans ((frm2.mono (by omega) (by omega)).toC)
 
 end Hex.C01s
